@@ -149,6 +149,43 @@ def judge(name, extra, msg):
     return None
 
 
+SKIP_STATELESS = ("tell", "common.hex2bin", "common.data")
+
+
+def spelling(msg, idx):
+    letters = [i for i, c in enumerate(msg) if c in "ABCDEF"]
+    m = list(msg)
+    for b, pos in enumerate(letters):
+        if (idx >> b) & 1:
+            m[pos] = m[pos].lower()
+    return "".join(m)
+
+
+def stateless(msg):
+    """Each decoder is first called in isolation on its own letter-case spelling of the frame (state keyed on the string
+    cannot be shared), then all decoders run on one spelling in table order and again in reverse order: every answer
+    must equal the isolated one (hidden caches, mutated shared tables, order dependence)."""
+    global TABLE
+    if TABLE is None:
+        TABLE = {t[0]: t for t in table()}
+    calls = [(name, extra) for name, f, extras, kind, guard in table() for extra in extras if name not in SKIP_STATELESS]
+    nlet = sum(c in "ABCDEF" for c in msg.upper())
+    if (1 << nlet) <= len(calls) + 1:
+        return []
+    up = msg.upper()
+    iso = {}
+    for i, (name, extra) in enumerate(calls):
+        iso[(name, extra)] = repr(call(TABLE[name][1], spelling(up, i + 1), *extra)).upper()
+    out = []
+    for order in (calls, list(reversed(calls))):
+        for name, extra in order:
+            r = repr(call(TABLE[name][1], up, *extra)).upper()
+            if r != iso[(name, extra)]:
+                out.append(("%s:result_depends_on_earlier_calls" % name, {"kind": "again", "name": name, "extra": list(extra), "msg": msg}))
+    seen = set()
+    return [x for x in out if not (x[0] in seen or seen.add(x[0]))]
+
+
 def w_frames(arg):
     n, dfs, pays, multiply = arg
     acc = Acc()
@@ -167,6 +204,10 @@ def w_frames(arg):
                             s = judge(name, extra, msg)
                             if s:
                                 acc.bad(s, {"kind": "call", "name": name, "extra": list(extra), "msg": msg})
+                    if k % 4 == 0:
+                        for sig, case in stateless(msg):
+                            acc.bad(sig, case)
+                        acc.n += 3 * len(tab)
                 acc.out.add((n, df, tc, st))
     return acc.res()
 
@@ -289,6 +330,9 @@ def run(ctx):
 
 
 def replay(case):
+    global TABLE
+    if case["kind"] == "again":
+        return stateless(case["msg"])
     if case["kind"] == "call":
         s = judge(case["name"], tuple(case["extra"]), case["msg"])
     else:
